@@ -134,6 +134,9 @@ func (r *renderer) Register(kind ast.NodeKind, v NodeRendererFunc) {
 // Render renders the given AST node to the given writer with the given Renderer.
 func (r *renderer) Render(w io.Writer, source []byte, n ast.Node) error {
 	r.initSync.Do(func() {
+		if verifOn {
+			verifEmit("RInitEnter", r, w)
+		}
 		r.options = r.config.Options
 		r.config.NodeRenderers.Sort()
 		l := len(r.config.NodeRenderers)
@@ -153,7 +156,13 @@ func (r *renderer) Render(w io.Writer, source []byte, n ast.Node) error {
 		}
 		r.config = nil
 		r.nodeRendererFuncsTmp = nil
+		if verifOn {
+			verifEmit("RInitDone", r, w)
+		}
 	})
+	if verifOn {
+		verifEmit("RTablesRead", r, w)
+	}
 	writer, ok := w.(util.BufWriter)
 	if !ok {
 		writer = bufio.NewWriter(w)
@@ -161,6 +170,9 @@ func (r *renderer) Render(w io.Writer, source []byte, n ast.Node) error {
 	err := ast.Walk(n, func(n ast.Node, entering bool) (ast.WalkStatus, error) {
 		s := ast.WalkStatus(ast.WalkContinue)
 		var err error
+		if verifOn {
+			verifEmit("RenderNode", writer, n, entering)
+		}
 		var f NodeRendererFunc
 		if kind := int(n.Kind()); kind >= 0 && kind < len(r.nodeRendererFuncs) {
 			f = r.nodeRendererFuncs[kind]
